@@ -5,6 +5,7 @@
 -/
 import GSV.RealInst
 import GSV.Model.LatLon
+import GSV.Lemmas.Sum
 import Mathlib.Analysis.SpecialFunctions.Trigonometric.Complex
 import Mathlib.Tactic.Ring
 import Mathlib.Tactic.Linarith
@@ -147,5 +148,292 @@ theorem arg_unit {a : ℝ} (h0 : 0 ≤ a) (h1 : a ≤ 1) :
     rw [Complex.norm_def, Complex.normSq_mk, Real.mul_self_sqrt (by linarith), Real.mul_self_sqrt h0]
     simp
   rw [this]; simp
+
+/-! ### orthogonal maps of 3-space -/
+
+/-- the linear map of 3-space with columns `c1 c2 c3` -/
+def linMap (c1 c2 c3 p : P3 ℝ) : P3 ℝ :=
+  ⟨p.x * c1.x + p.y * c2.x + p.z * c3.x, p.x * c1.y + p.y * c2.y + p.z * c3.y, p.x * c1.z + p.y * c2.z + p.z * c3.z⟩
+
+/-- `QᵀQ = 1` -/
+def Orthonormal3 (c1 c2 c3 : P3 ℝ) : Prop :=
+  P3.dot c1 c1 = 1 ∧ P3.dot c2 c2 = 1 ∧ P3.dot c3 c3 = 1 ∧ P3.dot c1 c2 = 0 ∧ P3.dot c1 c3 = 0 ∧ P3.dot c2 c3 = 0
+
+theorem linMap_isometry {c1 c2 c3 : P3 ℝ} (h : Orthonormal3 c1 c2 c3) (p q : P3 ℝ) :
+    P3.normSq (P3.sub (linMap c1 c2 c3 p) (linMap c1 c2 c3 q)) = P3.normSq (P3.sub p q) := by
+  obtain ⟨h1, h2, h3, h12, h13, h23⟩ := h
+  simp only [P3.dot] at h1 h2 h3 h12 h13 h23
+  simp only [linMap, P3.sub, P3.normSq]
+  linear_combination (p.x - q.x) ^ 2 * h1 + (p.y - q.y) ^ 2 * h2 + (p.z - q.z) ^ 2 * h3
+    + 2 * (p.x - q.x) * (p.y - q.y) * h12 + 2 * (p.x - q.x) * (p.z - q.z) * h13 + 2 * (p.y - q.y) * (p.z - q.z) * h23
+
+/-- rotation about the polar axis by `δ` degrees -/
+noncomputable def rotZ (δ : ℝ) : P3 ℝ × P3 ℝ × P3 ℝ :=
+  (⟨Real.cos (deg2rad δ), Real.sin (deg2rad δ), 0⟩, ⟨-Real.sin (deg2rad δ), Real.cos (deg2rad δ), 0⟩, ⟨0, 0, 1⟩)
+
+theorem rotZ_orthonormal (δ : ℝ) : Orthonormal3 (rotZ δ).1 (rotZ δ).2.1 (rotZ δ).2.2 := by
+  have h := Real.sin_sq_add_cos_sq (deg2rad δ)
+  simp only [Orthonormal3, rotZ, P3.dot]
+  refine ⟨by nlinarith, by nlinarith, by ring, by ring, by ring, by ring⟩
+
+theorem latlon2pos_lon_shift (R lat lon δ : ℝ) :
+    latlon2pos R lat (lon + δ) = linMap (rotZ δ).1 (rotZ δ).2.1 (rotZ δ).2.2 (latlon2pos R lat lon) := by
+  rw [latlon2pos_real, latlon2pos_real, deg2rad_add, Real.cos_add, Real.sin_add]
+  simp only [linMap, rotZ, P3.mk.injEq]
+  refine ⟨by ring, by ring, by ring⟩
+
+/-! ### rotation matrices in general dimension -/
+
+theorem matmul_real (d : ℕ) (A B : Mat ℝ) (i j : ℕ) :
+    matmul d A B i j = ∑ k ∈ Finset.range d, A i k * B k j := by
+  unfold matmul
+  exact forRange_cast_zero_add_eq_sum d _
+
+theorem eye_real (i j : ℕ) : (eye : Mat ℝ) i j = if i = j then 1 else 0 := by
+  simp [eye]
+
+theorem givens_zero {p : ℕ × ℕ} (hp : p.1 ≠ p.2) : givens p (0:ℝ) = eye := by
+  funext i j
+  simp only [givens, cos_real, sin_real, Real.cos_zero, Real.sin_zero, neg_zero, eye_real]
+  by_cases h1 : i = p.1 <;> by_cases h2 : j = p.1 <;> by_cases h3 : i = p.2 <;> by_cases h4 : j = p.2 <;>
+    simp_all
+
+theorem altSign_mul_neg_zero (i : ℕ) : altSign i * (-(0:ℝ)) = 0 := by simp
+
+/-- one step of the `matrix_derotate` loop -/
+noncomputable def rotStep (d : ℕ) (res : Mat ℝ) (q : (ℝ × (ℕ × ℕ)) × ℕ) : Mat ℝ :=
+  matmul d res (givens q.1.2 (altSign q.2 * (-q.1.1)))
+
+theorem derotate_eq (d : ℕ) (angles : List ℝ) :
+    derotate d angles = ((angles.zip (planes d)).zipIdx).foldl (rotStep d) eye := rfl
+
+/-- the plane of the step lies inside the first `m` axes, or the step is a rotation by 0 -/
+def GoodStep (m : ℕ) (q : (ℝ × (ℕ × ℕ)) × ℕ) : Prop :=
+  (q.1.2.1 < q.1.2.2 ∧ q.1.2.2 < m) ∨ (q.1.1 = 0 ∧ q.1.2.1 ≠ q.1.2.2)
+
+/-- row and column `m` of `M` are those of the identity (inside the first `m+1` axes) -/
+def TimeFixed (m : ℕ) (M : Mat ℝ) : Prop :=
+  (∀ j, j ≤ m → M m j = if j = m then 1 else 0) ∧ (∀ i, i ≤ m → M i m = if i = m then 1 else 0)
+
+theorem timeFixed_eye (m : ℕ) : TimeFixed m eye := by
+  constructor
+  · intro k _; rw [eye_real]; by_cases h : k = m
+    · simp [h]
+    · simp [h, Ne.symm h]
+  · intro k _; rw [eye_real]
+
+theorem givens_outside {p : ℕ × ℕ} (θ : ℝ) {i j : ℕ} (h : (i ≠ p.1 ∧ i ≠ p.2) ∨ (j ≠ p.1 ∧ j ≠ p.2)) :
+    givens p θ i j = eye i j := by
+  simp only [givens]
+  rcases h with ⟨h1, h2⟩ | ⟨h1, h2⟩ <;> simp [h1, h2]
+
+theorem timeFixed_givens {m : ℕ} {q : (ℝ × (ℕ × ℕ)) × ℕ} (hq : GoodStep m q) :
+    TimeFixed m (givens q.1.2 (altSign q.2 * (-q.1.1))) := by
+  rcases hq with ⟨h1, h2⟩ | ⟨h1, h2⟩
+  · have hm : m ≠ q.1.2.1 ∧ m ≠ q.1.2.2 := ⟨by omega, by omega⟩
+    constructor <;> intro k _
+    · rw [givens_outside _ (Or.inl hm)]; exact (timeFixed_eye m).1 k ‹_›
+    · rw [givens_outside _ (Or.inr hm)]; exact (timeFixed_eye m).2 k ‹_›
+  · rw [h1, altSign_mul_neg_zero, givens_zero h2]; exact timeFixed_eye m
+
+theorem timeFixed_matmul {m : ℕ} {A B : Mat ℝ} (hA : TimeFixed m A) (hB : TimeFixed m B) :
+    TimeFixed m (matmul (m + 1) A B) := by
+  constructor
+  · intro j hj
+    rw [matmul_real, Finset.sum_eq_single m]
+    · rw [hA.1 m le_rfl, hB.1 j hj]; simp
+    · intro k hk hkm
+      rw [hA.1 k (by have := Finset.mem_range.mp hk; omega)]; simp [hkm]
+    · intro h; exact absurd (Finset.mem_range.mpr (Nat.lt_succ_self m)) h
+  · intro i hi
+    rw [matmul_real, Finset.sum_eq_single m]
+    · rw [hB.2 m le_rfl, hA.2 i hi]; simp
+    · intro k hk hkm
+      rw [hB.2 k (by have := Finset.mem_range.mp hk; omega)]; simp [hkm]
+    · intro h; exact absurd (Finset.mem_range.mpr (Nat.lt_succ_self m)) h
+
+theorem timeFixed_fold {m : ℕ} (L : List ((ℝ × (ℕ × ℕ)) × ℕ)) (hL : ∀ q ∈ L, GoodStep m q)
+    {M : Mat ℝ} (hM : TimeFixed m M) : TimeFixed m (L.foldl (rotStep (m + 1)) M) := by
+  induction L generalizing M with
+  | nil => exact hM
+  | cons q L ih =>
+    simp only [List.foldl_cons]
+    exact ih (fun q' h => hL q' (List.mem_cons_of_mem _ h))
+      (timeFixed_matmul hM (timeFixed_givens (hL q List.mem_cons_self)))
+
+/-! ### structure of `rotation_planes` and of the zeroed angle list -/
+
+theorem planes_succ (d : ℕ) : planes (d + 1) = planes d ++ (List.range d).map fun i => (i, d) := by
+  cases d with
+  | zero => simp [planes]
+  | succ e =>
+    unfold planes
+    have : e + 1 + 1 - 1 = (e + 1 - 1) + 1 := by omega
+    rw [this, List.range'_concat, List.flatMap_append]
+    simp [Nat.add_comm]
+
+theorem mem_planes {d : ℕ} {p : ℕ × ℕ} : p ∈ planes d ↔ p.1 < p.2 ∧ p.2 < d := by
+  induction d with
+  | zero => simp [planes]
+  | succ d ih =>
+    rw [planes_succ, List.mem_append, ih]
+    obtain ⟨i, j⟩ := p
+    simp only [List.mem_map, List.mem_range, Prod.mk.injEq]
+    constructor
+    · rintro (⟨h1, h2⟩ | ⟨a, ha, rfl, rfl⟩)
+      · exact ⟨h1, by omega⟩
+      · exact ⟨ha, by omega⟩
+    · rintro ⟨h1, h2⟩
+      by_cases hj : j < d
+      · exact Or.inl ⟨h1, hj⟩
+      · exact Or.inr ⟨i, by omega, rfl, by omega⟩
+
+theorem noa_succ (d : ℕ) : noa (d + 1) = noa d + d := by
+  unfold noa
+  cases d with
+  | zero => simp
+  | succ e =>
+    have : (e + 1 + 1) * (e + 1 + 1 - 1) = (e + 1) * (e + 1 - 1) + 2 * (e + 1) := by
+      simp only [Nat.add_sub_cancel]; ring
+    rw [this, Nat.add_mul_div_left _ _ (by norm_num : 0 < 2)]
+
+theorem length_planes (d : ℕ) : (planes d).length = noa d := by
+  induction d with
+  | zero => simp [planes, noa]
+  | succ d ih => rw [planes_succ, List.length_append, ih, noa_succ]; simp
+
+/-- `set_model_angles(temporal=True)` keeps the first `no_of_angles(d-1)` angles and zeroes the rest -/
+theorem modelAngles_temporal (d : ℕ) (angles : List ℝ) :
+    modelAngles false true d angles
+      = angles.take (noa (d - 1)) ++ List.replicate (angles.length - noa (d - 1)) 0 := by
+  apply List.ext_getElem?
+  intro k
+  simp only [modelAngles, Bool.false_eq_true, if_false, if_true, List.getElem?_map, List.getElem?_zipIdx]
+  rcases lt_or_ge k angles.length with hka | hka
+  · rw [List.getElem?_eq_getElem hka]
+    simp only [Option.map_some, Nat.zero_add]
+    by_cases hk : k < noa (d - 1)
+    · rw [List.getElem?_append_left (by rw [List.length_take]; omega), List.getElem?_take_of_lt hk,
+        List.getElem?_eq_getElem hka]
+      simp [hk]
+    · rw [List.getElem?_append_right (by rw [List.length_take]; omega), List.length_take,
+        List.getElem?_replicate]
+      have : k - min (noa (d - 1)) angles.length < angles.length - noa (d - 1) := by omega
+      simp [hk, this]
+  · rw [List.getElem?_eq_none hka, List.getElem?_eq_none (by simp; omega)]
+    simp
+
+/-! ### decomposition of the rotation steps of a spatio-temporal model -/
+
+/-- the list the `matrix_derotate` loop runs over -/
+def steps (d : ℕ) (angles : List ℝ) : List ((ℝ × (ℕ × ℕ)) × ℕ) := ((angles.zip (planes d)).zipIdx)
+
+theorem derotate_steps (d : ℕ) (angles : List ℝ) : derotate d angles = (steps d angles).foldl (rotStep d) eye := rfl
+
+theorem steps_temporal (m : ℕ) (angles : List ℝ) (hlen : noa m ≤ angles.length) :
+    steps (m + 1) (modelAngles false true (m + 1) angles)
+      = steps m (angles.take (noa m))
+        ++ ((List.replicate (angles.length - noa m) (0:ℝ)).zip ((List.range m).map fun i => (i, m))).zipIdx (noa m) := by
+  unfold steps
+  rw [modelAngles_temporal, Nat.add_sub_cancel, planes_succ,
+    List.zip_append (by rw [List.length_take, length_planes]; omega), List.zipIdx_append]
+  congr 2
+  rw [List.length_zip, List.length_take, length_planes]; omega
+
+theorem good_steps_spatial (m : ℕ) (angles : List ℝ) : ∀ q ∈ steps m angles, GoodStep m q := by
+  intro q hq
+  have h1 := List.fst_mem_of_mem_zipIdx hq
+  have h2 := (List.of_mem_zip (a := q.1.1) (b := q.1.2) (by simpa using h1)).2
+  exact Or.inl (mem_planes.mp h2)
+
+theorem good_steps_time (m n k : ℕ) :
+    ∀ q ∈ ((List.replicate n (0:ℝ)).zip ((List.range m).map fun i => (i, m))).zipIdx k,
+      q.1.1 = 0 ∧ q.1.2.1 ≠ q.1.2.2 := by
+  intro q hq
+  have h1 := List.fst_mem_of_mem_zipIdx hq
+  obtain ⟨ha, hp⟩ := List.of_mem_zip (a := q.1.1) (b := q.1.2) (by simpa using h1)
+  refine ⟨List.eq_of_mem_replicate ha, ?_⟩
+  simp only [List.mem_map, List.mem_range] at hp
+  obtain ⟨i, hi, hq2⟩ := hp
+  rw [← hq2]; simp; omega
+
+/-- `derotate` of a spatio-temporal model leaves the time axis alone -/
+theorem timeFixed_derotate (m : ℕ) (angles : List ℝ) (hlen : noa m ≤ angles.length) :
+    TimeFixed m (derotate (m + 1) (modelAngles false true (m + 1) angles)) := by
+  rw [derotate_steps, steps_temporal m angles hlen]
+  apply timeFixed_fold _ _ (timeFixed_eye m)
+  intro q hq
+  rcases List.mem_append.mp hq with h | h
+  · exact good_steps_spatial m _ q h
+  · exact Or.inr (good_steps_time m _ _ q h)
+
+/-- agreement on the leading `m × m` block -/
+def Agree (m : ℕ) (M M' : Mat ℝ) : Prop := ∀ i j, i < m → j < m → M i j = M' i j
+
+theorem agree_step {m : ℕ} {q : (ℝ × (ℕ × ℕ)) × ℕ} (hq : GoodStep m q) {M M' : Mat ℝ} (h : Agree m M M') :
+    Agree m (rotStep (m + 1) M q) (rotStep m M' q) := by
+  intro i j hi hj
+  simp only [rotStep, matmul_real, Finset.sum_range_succ]
+  have hG := (timeFixed_givens hq).1 j hj.le
+  rw [hG, if_neg (by omega), mul_zero, add_zero]
+  exact Finset.sum_congr rfl fun k hk => by rw [h i k hi (Finset.mem_range.mp hk)]
+
+theorem agree_fold {m : ℕ} (L : List ((ℝ × (ℕ × ℕ)) × ℕ)) (hL : ∀ q ∈ L, GoodStep m q) {M M' : Mat ℝ}
+    (h : Agree m M M') : Agree m (L.foldl (rotStep (m + 1)) M) (L.foldl (rotStep m) M') := by
+  induction L generalizing M M' with
+  | nil => exact h
+  | cons q L ih =>
+    simp only [List.foldl_cons]
+    exact ih (fun q' h' => hL q' (List.mem_cons_of_mem _ h')) (agree_step (hL q List.mem_cons_self) h)
+
+theorem agree_zero_step {m : ℕ} {q : (ℝ × (ℕ × ℕ)) × ℕ} (hq : q.1.1 = 0 ∧ q.1.2.1 ≠ q.1.2.2) (M : Mat ℝ) :
+    Agree m (rotStep m M q) M := by
+  intro i j _ hj
+  simp only [rotStep, matmul_real]
+  rw [hq.1, altSign_mul_neg_zero, givens_zero hq.2, Finset.sum_eq_single j]
+  · rw [eye_real]; simp
+  · intro k _ hkj; rw [eye_real]; simp [hkj]
+  · intro h; exact absurd (Finset.mem_range.mpr hj) h
+
+theorem agree_zero_fold {m : ℕ} (L : List ((ℝ × (ℕ × ℕ)) × ℕ)) (hL : ∀ q ∈ L, q.1.1 = 0 ∧ q.1.2.1 ≠ q.1.2.2)
+    (M : Mat ℝ) : Agree m (L.foldl (rotStep m) M) M := by
+  induction L generalizing M with
+  | nil => intro i j _ _; rfl
+  | cons q L ih =>
+    simp only [List.foldl_cons]
+    intro i j hi hj
+    rw [ih (fun q' h' => hL q' (List.mem_cons_of_mem _ h')) _ i j hi hj]
+    exact agree_zero_step (hL q List.mem_cons_self) M i j hi hj
+
+/-- the spatial block of `derotate` is the `derotate` of the purely spatial model -/
+theorem agree_derotate (m : ℕ) (angles : List ℝ) (hlen : noa m ≤ angles.length) :
+    Agree m (derotate (m + 1) (modelAngles false true (m + 1) angles)) (derotate m (angles.take (noa m))) := by
+  rw [derotate_steps, derotate_steps, steps_temporal m angles hlen]
+  intro i j hi hj
+  have hgood : ∀ q ∈ steps m (angles.take (noa m))
+        ++ ((List.replicate (angles.length - noa m) (0:ℝ)).zip ((List.range m).map fun i => (i, m))).zipIdx (noa m),
+      GoodStep m q := by
+    intro q hq
+    rcases List.mem_append.mp hq with h | h
+    · exact good_steps_spatial m _ q h
+    · exact Or.inr (good_steps_time m _ _ q h)
+  rw [agree_fold _ hgood (M' := eye) (fun _ _ _ _ => rfl) i j hi hj, List.foldl_append]
+  exact agree_zero_fold _ (good_steps_time m _ _) _ i j hi hj
+
+theorem isotropify_real (anis : List ℝ) (i j : ℕ) :
+    isotropify anis i j = if i = j then (if i = 0 then 1 else 1 / anis.getD (i - 1) 1) else 0 := by
+  simp [isotropify]
+
+theorem applyMat_real (d : ℕ) (M : Mat ℝ) (x : ℕ → ℝ) (i : ℕ) :
+    applyMat d M x i = ∑ k ∈ Finset.range d, M i k * x k := by
+  unfold applyMat
+  exact forRange_cast_zero_add_eq_sum d _
+
+/-- `isotropify · D` scales row `i` of `D` -/
+theorem isotropify_matmul (d : ℕ) (anis : List ℝ) (D : Mat ℝ) {i : ℕ} (hi : i < d) (j : ℕ) :
+    matmul d (isotropify anis) D i j = isotropify anis i i * D i j := by
+  rw [matmul_real, Finset.sum_eq_single i]
+  · intro k _ hk; rw [isotropify_real, if_neg (Ne.symm hk)]; simp
+  · intro h; exact absurd (Finset.mem_range.mpr hi) h
 
 end GSV.Model.LatLon
